@@ -14,6 +14,7 @@ import (
 	"strings"
 	"sync"
 	"syscall"
+	"unsafe"
 )
 
 // PanicError is what Try returns when the callee panicked.
@@ -56,11 +57,19 @@ func Try(f func() error) (err error) {
 	return f()
 }
 
-// Exact returns a copy of b whose capacity equals its length: any re-slice past len panics.
+// Exact returns a copy of b whose capacity equals its length: any re-slice past len panics. The copy starts at an address
+// whose low three bits are a function of the content (a datagram in a receive ring, a key inside a key block, a field of a
+// larger buffer start anywhere): code that treats octets as machine words must cope with every alignment.
 func Exact(b []byte) []byte {
-	out := make([]byte, len(b))
+	if len(b) == 0 {
+		return make([]byte, 0)
+	}
+	buf := make([]byte, len(b)+16)
+	want := (uintptr(len(b)) + uintptr(b[0]) + uintptr(b[len(b)-1])) % 8
+	off := int((want - uintptr(unsafe.Pointer(&buf[0]))%8 + 8) % 8)
+	out := buf[off : off+len(b) : off+len(b)]
 	copy(out, b)
-	return out[:len(b):len(b)]
+	return out
 }
 
 // Spare returns a copy of b followed by at least 96 octets of spare capacity filled with poison.
